@@ -195,6 +195,19 @@ func (ex *Exec) syncC() {
 	ex.syncedC = true
 }
 
+// zOK: z3 can be asked about the current path (no cvc5-only operators in it).
+func (ex *Exec) zOK(q *Term) bool {
+	if q != nil && q.cvcOnly {
+		return false
+	}
+	for _, t := range ex.pc {
+		if t.cvcOnly {
+			return false
+		}
+	}
+	return true
+}
+
 func (ex *Exec) syncZ() {
 	if ex.syncedZ {
 		return
@@ -254,7 +267,7 @@ func (ex *Exec) feasibleM(t *Term) (bool, assignment) {
 		m = ex.fetchModel(t)
 	}
 	ex.cvc.Pop()
-	if r == "unknown" {
+	if r == "unknown" && ex.zOK(t) {
 		ex.syncZ()
 		r = ex.z3.Check(t)
 		ex.z3.Pop()
@@ -487,7 +500,7 @@ func (ex *Exec) checkProp(q *Term, wantModel bool) (string, map[string]string, s
 	case "unsat":
 		ex.cvc.Pop()
 		ex.propQ++
-		if ex.sh.cfg.CrossCheck == "off" || (ex.sh.cfg.CrossCheck == "sample" && ex.propQ%8 != 0) {
+		if !ex.zOK(q) || ex.sh.cfg.CrossCheck == "off" || (ex.sh.cfg.CrossCheck == "sample" && ex.propQ%8 != 0) {
 			return "unsat", nil, "single:cvc5"
 		}
 		ex.syncZ()
@@ -502,6 +515,9 @@ func (ex *Exec) checkProp(q *Term, wantModel bool) (string, map[string]string, s
 		return "unsat", nil, "single:cvc5"
 	default:
 		ex.cvc.Pop()
+		if !ex.zOK(q) {
+			return "unknown", nil, note
+		}
 		ex.syncZ()
 		rz := ex.z3.Check(q)
 		switch rz {
